@@ -97,8 +97,10 @@ func (p *c01Prop) Gen(r *Rng, i int, tier string) interface{} {
 	}
 	broker := i%10 == 7
 	shared := map[string]bool{}
+	restarts := false
 	if broker {
 		c.Provider = "broker"
+		restarts = r.Chance(40)
 	}
 	n := 6 + r.Intn(30)
 	var filters, topics []string // re-use what was used before: that is where pruning decides
@@ -189,6 +191,11 @@ func (p *c01Prop) Gen(r *Rng, i int, tier string) interface{} {
 				}
 				op.Share = sh
 			}
+		}
+		if broker && restarts && k > 2 && r.Chance(8) {
+			// shutdown and start over the same persistence: the sessions are durable and come back with their
+			// subscriptions, the retained messages published with QoS 1/2 are back (C01 "the same matching after restart")
+			c.Ops = append(c.Ops, c01Op{Op: "restart"})
 		}
 	}
 	return c
@@ -375,12 +382,31 @@ func (p *c01Prop) Coq(ci interface{}, oi interface{}) string {
 	c := ci.(*c01Case)
 	o := oi.(*c01Obs)
 	hs := []string{}
+	volatile := map[string]bool{} // topics whose retained message was published at QoS 0
 	for i, op := range c.Ops {
 		if i >= len(o.Steps) {
 			break
 		}
 		st := o.Steps[i]
+		if op.Op == "ret" {
+			volatile[op.F] = !op.Empty && op.QoS == 0
+		}
 		switch op.Op {
+		case "restart":
+			// what a restart is to the index: every subscription of the (durable) sessions is back, every retained
+			// message published with QoS 1/2 is back, the ones published with QoS 0 are not persisted - as if each of
+			// them had been cleared
+			ts := []string{}
+			for t, v := range volatile {
+				if v {
+					ts = append(ts, t)
+				}
+			}
+			sort.Strings(ts)
+			for _, t := range ts {
+				hs = append(hs, fmt.Sprintf("(HOp (ORetain %s (mkMsg 0 0 false) true true) None)", cBytes([]byte(t))))
+				volatile[t] = false
+			}
 		case "sub":
 			hs = append(hs, fmt.Sprintf("(HOp (OSub %s %d (mkSP %d false false %d 0)) (Some %s))", cBytes([]byte(op.F)), op.S, op.QoS, op.RH, cInts(st.Tags)))
 		case "unsub":
